@@ -129,14 +129,23 @@ class PycodeSerializer:
             yield str(obj)
             return
 
+        if isinstance(obj, tuple):
+            start, end = "(", ")"
+        elif isinstance(obj, frozenset):
+            start, end = "frozenset({", "})"
+        elif isinstance(obj, set):
+            start, end = "{", "}"
+        else:
+            start, end = "[", "]"
+
         next_level = level + 1
-        yield "[\n"
+        yield f"{start}\n"
         for val in obj:
             yield spaces * next_level
             yield from self.repr_object(val, next_level, types)
             yield ",\n"
 
-        yield f"{spaces * level}]"
+        yield f"{spaces * level}{end}"
 
     def repr_mapping(self, obj: Mapping, level: int, types: set[type]) -> Iterator[str]:
         """Convert a map object to repr code.
